@@ -1658,6 +1658,210 @@ def rule_option_writeback(chk, gp):
 
 
 # ----------------------------------------------------------------------------
+# option present vs. option falsy: a numeric option (0 is a value) falls back to its default only when absent
+# ----------------------------------------------------------------------------
+def _opt_read(e, owned):
+    """(dict, key) when `e` is `d[K]` / `d.get(K)` / `d.get(K, None)` on a caller-owned dict"""
+    if isinstance(e, ast.Subscript) and isinstance(e.value, ast.Name) and e.value.id in owned \
+            and isinstance(e.slice, ast.Constant):
+        return (e.value.id, e.slice.value)
+    if isinstance(e, ast.Call) and isinstance(e.func, ast.Attribute) and e.func.attr == "get" \
+            and isinstance(e.func.value, ast.Name) and e.func.value.id in owned and e.args and not e.keywords \
+            and isinstance(e.args[0], ast.Constant) \
+            and (len(e.args) == 1 or (len(e.args) == 2 and isinstance(e.args[1], ast.Constant) and e.args[1].value is None)):
+        return (e.func.value.id, e.args[0].value)
+    return None
+
+
+def _assigned_in(stmts, name=None, key=None):
+    """targets (names, (dict, key) pairs) assigned anywhere in the statements"""
+    names, keys = set(), set()
+    for s in stmts:
+        for x in ast.walk(s):
+            if isinstance(x, (ast.Assign, ast.AugAssign, ast.AnnAssign)):
+                tg = x.targets if isinstance(x, ast.Assign) else [x.target]
+                for t in tg:
+                    for tt in (t.elts if isinstance(t, (ast.Tuple, ast.List)) else [t]):
+                        if isinstance(tt, ast.Name):
+                            names.add(tt.id)
+                        elif isinstance(tt, ast.Subscript) and isinstance(tt.value, ast.Name) and isinstance(tt.slice, ast.Constant):
+                            keys.add((tt.value.id, tt.slice.value))
+    return names, keys
+
+
+def _block_of(st):
+    par = pf.parent(st)
+    for fld in ("body", "orelse", "finalbody"):
+        b = getattr(par, fld, None)
+        if isinstance(b, list) and any(s is st for s in b):
+            return b
+    return None
+
+
+def _stmt_of(x):
+    while x is not None and not isinstance(x, ast.stmt):
+        x = pf.parent(x)
+    return x
+
+
+def rule_option_default(chk, gp):
+    """A test that decides between an option of a caller-owned dict and the default for the same quantity must be a
+    presence test (`is None`, `is not None`, `in`): a truthiness test hands the default to an explicit 0."""
+    n_inst = 0
+    seen_fn = set()
+    for m, c in gp.prog.mro(gp.mod, gp.cls):
+        if m.rel != TR:
+            continue
+        for mname, fn in pf.methods(c).items():
+            if mname in seen_fn:
+                continue
+            seen_fn.add(mname)
+            owned = _caller_dicts(fn)
+            where = "%s.%s" % (c.name, mname)
+            # aliases: `v = d.get(K)`; a later load of v in the same block (no assignment of v in between) is the option
+            alias_defs = {}
+            for st in pf.walk_no_nested(fn):
+                if isinstance(st, ast.Assign) and len(st.targets) == 1 and isinstance(st.targets[0], ast.Name):
+                    o = _opt_read(st.value, owned)
+                    if o is not None:
+                        alias_defs.setdefault(st.targets[0].id, []).append((st, o))
+
+            def option_of(e):
+                o = _opt_read(e, owned)
+                if o is not None:
+                    return o, None
+                if isinstance(e, ast.Name) and e.id in alias_defs:
+                    use = _stmt_of(e)
+                    for dst, o in alias_defs[e.id]:
+                        blk = _block_of(dst)
+                        if blk is None:
+                            continue
+                        i = next(k for k, s in enumerate(blk) if s is dst)
+                        # the statement of the block that contains the use
+                        j = None
+                        for k in range(i + 1, len(blk)):
+                            if any(y is use for y in ast.walk(blk[k])):
+                                j = k
+                                break
+                        if j is None:
+                            continue
+                        if any(e.id in _assigned_in([s])[0] for s in blk[i + 1:j]):
+                            continue
+                        return o, e.id
+                return None, None
+
+            def numeric(o, alias):
+                d, k = o
+                for x in ast.walk(fn):
+                    oo, al = (None, None)
+                    if isinstance(x, (ast.Subscript, ast.Call)):
+                        oo = _opt_read(x, owned)
+                    if oo == o or (alias and isinstance(x, ast.Name) and x.id == alias and isinstance(x.ctx, ast.Load)):
+                        p = pf.parent(x)
+                        while p is not None and not isinstance(p, ast.stmt):
+                            if isinstance(p, ast.BinOp):
+                                return True
+                            p = pf.parent(p)
+                        if isinstance(p, ast.AugAssign) and any(y is x for y in ast.walk(p.value)):
+                            return True
+                    if alias and isinstance(x, ast.AugAssign) and isinstance(x.target, ast.Name) and x.target.id == alias:
+                        return True
+                # the value handed on to a local that is then used arithmetically: `noise = rxn["noise"]; noise += ...`
+                for x in pf.walk_no_nested(fn):
+                    if isinstance(x, ast.Assign) and len(x.targets) == 1 and isinstance(x.targets[0], ast.Name) \
+                            and _opt_read(x.value, owned) == o:
+                        nm = x.targets[0].id
+                        for y in ast.walk(fn):
+                            if isinstance(y, ast.AugAssign) and isinstance(y.target, ast.Name) and y.target.id == nm:
+                                return True
+                            if isinstance(y, ast.BinOp) and any(isinstance(z, ast.Name) and z.id == nm for z in ast.walk(y)):
+                                return True
+                return False
+
+            def parse_test(t):
+                """-> (option, alias, kind, default_when_test_true) | None"""
+                if isinstance(t, ast.Compare) and len(t.ops) == 1:
+                    op, l, r = t.ops[0], t.left, t.comparators[0]
+                    if isinstance(op, (ast.Is, ast.IsNot, ast.Eq, ast.NotEq)) and isinstance(r, ast.Constant) and r.value is None:
+                        o, al = option_of(l)
+                        if o is not None:
+                            return o, al, "presence", isinstance(op, (ast.Is, ast.Eq))
+                    if isinstance(op, (ast.In, ast.NotIn)) and isinstance(l, ast.Constant) and isinstance(r, ast.Name) and r.id in owned:
+                        return (r.id, l.value), None, "presence", isinstance(op, ast.NotIn)
+                    return None
+                if isinstance(t, ast.UnaryOp) and isinstance(t.op, ast.Not):
+                    inner = parse_test(t.operand)
+                    if inner is None:
+                        return None
+                    return inner[0], inner[1], inner[2], not inner[3]
+                if isinstance(t, ast.Call) and pf.call_name(t) == "bool" and len(t.args) == 1:
+                    return parse_test(t.args[0])
+                o, al = option_of(t)
+                if o is not None:
+                    return o, al, "truth", False
+                return None
+
+            def reads_option(nodes, o, alias):
+                for s in nodes:
+                    for x in ast.walk(s):
+                        if isinstance(x, (ast.Subscript, ast.Call)) and _opt_read(x, owned) == o:
+                            return True
+                        if alias and isinstance(x, ast.Name) and x.id == alias and isinstance(x.ctx, ast.Load):
+                            return True
+                return False
+
+            def verdict(node, o, alias, kind, what):
+                nonlocal n_inst
+                if not numeric(o, alias):
+                    return
+                n_inst += 1
+                inst = "%s: option %s[%r] gives way to its default only when absent" % (where, o[0], o[1])
+                if kind == "presence":
+                    chk.ok("option-default", inst)
+                else:
+                    chk.violation("option-default", TR, where, "%s[%r] tested by truthiness" % (o[0], o[1]), node.lineno,
+                                  "`%s` %s: the option %r is used as a number, and an explicit 0 (0.0) is a value of its "
+                                  "domain, yet it is falsy and is replaced by the default as if the option were absent; "
+                                  "test `is None` / `is not None` instead" % (pf.src(node)[:80].split("\n")[0], what, o[1]),
+                                  instance=inst)
+
+            for x in pf.walk_no_nested(fn):
+                if isinstance(x, ast.If):
+                    pt = parse_test(x.test)
+                    if pt is None:
+                        continue
+                    o, alias, kind, dflt_true = pt
+                    dbr, obr = (x.body, x.orelse) if dflt_true else (x.orelse, x.body)
+                    if not dbr:
+                        continue
+                    dn, dk_ = _assigned_in(dbr)
+                    on, ok_ = _assigned_in(obr)
+                    deciding = (alias is not None and alias in dn) or (o in dk_) \
+                        or bool((dn & on) or (dk_ & ok_)) and reads_option(obr, o, alias)
+                    if deciding:
+                        verdict(x, o, alias, kind, "chooses between the option and the default assigned in the other branch")
+                elif isinstance(x, ast.IfExp):
+                    pt = parse_test(x.test)
+                    if pt is None:
+                        continue
+                    o, alias, kind, dflt_true = pt
+                    oarm = x.orelse if dflt_true else x.body
+                    if reads_option([oarm], o, alias):
+                        verdict(x, o, alias, kind, "chooses between the option and a default")
+                elif isinstance(x, ast.BoolOp) and isinstance(x.op, ast.Or):
+                    par = pf.parent(x)
+                    tested = (isinstance(par, (ast.If, ast.While, ast.IfExp, ast.Assert)) and par.test is x) \
+                        or (isinstance(par, ast.UnaryOp) and isinstance(par.op, ast.Not)) or isinstance(par, ast.BoolOp)
+                    if tested:
+                        continue
+                    for v in x.values[:-1]:
+                        o, alias = option_of(v)
+                        if o is not None:
+                            verdict(x, o, alias, "truth", "substitutes the default for a falsy option")
+    chk.count("decisions between an option and its default", n_inst)
+
+
+# ----------------------------------------------------------------------------
 # per-iteration values are not used after their loop
 # ----------------------------------------------------------------------------
 def rule_stale_loop_value(chk, gp):
@@ -2239,6 +2443,7 @@ def _analyse_own(chk):
     chk.rule("pairing", "sibling loops over the systems of one reaction iterate the same (structs, counts) pairing")
     chk.rule("loop-carried", "locals feeding the stored rows are (re)defined in every iteration of the reaction loop")
     chk.rule("option-writeback", "an option key of a caller-owned dict is only given plain defaults, never a derived value")
+    chk.rule("option-default", "a numeric option of a caller-owned dict gives way to its default only when absent (presence test, not truthiness)")
     chk.rule("stale-loop-value", "a value set in every iteration of a loop (without break) is not used after that loop")
     chk.rule("log-prod", "the likelihood never takes the logarithm of a product of many factors")
     chk.rule("likelihood-default", "compute_likelihood(x=None) evaluates the likelihood on the matrix fit() factorised")
@@ -2268,6 +2473,7 @@ def _analyse_own(chk):
         chk.guard(rule_snapshot, gp)
         chk.guard(rule_stored_alias, gp)
         chk.guard(rule_option_writeback, gp)
+        chk.guard(rule_option_default, gp)
         chk.guard(rule_likelihood_default, gp)
         chk.guard(rule_log_prod, gp)
         chk.guard(rule_per_item_memo, gp)
@@ -2297,6 +2503,7 @@ def _analyse_own(chk):
     chk.floor("memo-invalidate", 1, "DFTKernel.get_kctrl computes and returns self.Kmm")
     chk.floor("loop-carried", 2, "rxn_ref, noise, rxn_cov")
     chk.floor("option-writeback", 1, "rxn['unit'] default")
+    chk.floor("option-default", 1, "unit, noise, noise_factor of MOLGP.add_reactions")
     chk.floor("stale-loop-value", 10, "per-iteration locals of the loops of MOLGP methods")
     chk.floor("likelihood-default", 1, "MOLGP.compute_likelihood")
     chk.floor("twin-covs", 6, "masked arrays, tuple dicts, per-orbital accumulations of both twins")
@@ -2426,6 +2633,10 @@ def _seed_kmm_sel(text):
 def mutants(tree):
     return [
         Mutant("forget rxn_noise_list in reset", TR, "        self.rxn_noise_list = []\n", "", expect="reset-append"),
+        Mutant("unit option tested by truthiness", TR, 'if rxn.get("unit") is None:', 'if not rxn.get("unit"):',
+               expect="option-default"),
+        Mutant("noise_factor option tested by truthiness", TR, 'elif rxn.get("noise_factor") is not None:',
+               'elif rxn.get("noise_factor"):', expect="option-default"),
         Mutant("forget kernel lists in reset", TR,
                "        for kernel in self.kernels:\n            kernel.rxn_cov_list = []\n", "", expect="reset-append"),
         Mutant("reset only exchange kernels", TR,
